@@ -689,7 +689,7 @@ from the table when the model is one, otherwise from two extra samples -/
 def taperEnds (h : Heap K) (A : Obj K) (d : TaperData K) : Bool × Bool × Bool :=
   match rootEnds h A with
   | some (y1, y2, kn) => (decide (y1 ≠ 0), decide (y2 ≠ 0), kn)
-  | none => (d.front, d.back, false)
+  | none => (d.front, d.back, true)      -- anything that is not a table keeps what it samples (`keep_neg=True`)
 
 /-- new arrays, a new `Empirical1D` built with the table's own `keep_neg`, a new object whose
 metadata starts empty -/
@@ -979,13 +979,16 @@ def forceLocs (h : Heap K) (o : Nat) : List Loc :=
 
 /-- **what the documentation says a call may modify in place**: the redshift attributes by
 assignment, the extrapolation behaviour of the underlying model by `force_extrapolation()`, by
-`normalize` on its partial-overlap paths and by `Observation(force='extrap')`, the metadata by
+`normalize` where it proceeds on a partial overlap (`partial_most`, or `partial_notmost` with
+`force=True`; a refused call writes nothing) and by `Observation(force='extrap')`, the metadata by
 assignment.  Every other call: nothing. -/
 def documented (h : Heap K) : Call K → List Loc
   | .setZ o _ | .setZType o _ => [.objZ o]
   | .forceExtrap o => forceLocs h o
   | .setWarnings o _ | .setMeta o _ _ => [.objMeta o]
-  | .normalize o _ _ stat _ _ => if stat.isPartial then forceLocs h o else []
+  | .normalize o _ force stat _ _ =>
+      -- only where renormalisation *proceeds* on a partial overlap; a refused call writes nothing
+      if stat.isPartial ∧ ¬ (stat = .partialNotMost ∧ ¬ force) then forceLocs h o else []
   | .observation src _ force stat _ _ _ => if stat.isPartial ∧ force = .extrap then forceLocs h src else []
   | _ => []
 
